@@ -304,9 +304,9 @@ def gen_systematic(ck, ttl):
     for fl in fleetsA:
         hosts = mk_fleet(fl, rng)
         if quick and len(fl) == 4:
-            sp = rng.sample(specs, 2)
+            sp = rng.sample(specs, 4)
         elif quick and len(fl) == 3:
-            sp = rng.sample(specs, 6)
+            sp = rng.sample(specs, 10)
         else:
             sp = specs
         for (label, rg) in sp:
@@ -349,7 +349,7 @@ def gen_systematic(ck, ttl):
             for combo in combos:
                 fl = [kindsD[i] for i in combo]
                 hosts = mk_fleet(fl, rng)
-                for rg in (rng.sample(fit, 3) if quick else fit):
+                for rg in (rng.sample(fit, 4) if quick else fit):
                     c = {"tick": T0, "hosts": hosts, "shards": [(1, 1, list(range(1, n + 1)))], "regions": rg, "origin": "D:fitting"}
                     cases.append(add_draws(c, rng))
     return cases
@@ -437,7 +437,7 @@ def load_corpus():
 def replay_obj(c, ttl, o, kind):
     return {"kind": "monitor:" + kind, "engine": "sched/launch", "nodeHostTTL": ttl,
             "case": {"tick": c["tick"], "hosts": [list(h) for h in c["hosts"]], "shards": [list(s) for s in c["shards"]],
-                     "regions": None if c["regions"] is None else [c["regions"][0], c["regions"][1]], "draws": c["draws"][:64],
+                     "regions": None if c["regions"] is None else [c["regions"][0], c["regions"][1]], "draws": c["draws"],
                      "ramped": c.get("ramped", False)},
             "encoding": "hosts: [address k = 'a<k>', region k = 'r<k>' (0 = ''), last tick, hosted shard ids]; shards: [id, app k = 'app<k>', members]; regions: [names, counts] or null",
             "origin": c.get("origin"), "go_input_line": go_line(c)[:3000], "observed": json.dumps(o)[:3000]}
@@ -500,7 +500,7 @@ def run(ck):
         cases = load_corpus()
         ck.cov["corpus_cases"] = len(cases)
         cases += gen_systematic(ck, ttl)
-        cases += gen_random(ck, ttl, 6000 if ck.tier == "quick" else 80000)
+        cases += gen_random(ck, ttl, 10000 if ck.tier == "quick" else 300000)
     t0 = time.time()
     _, res = run_go(cases, "main")
     tm["go_run"] = round(time.time() - t0, 1)
@@ -531,7 +531,7 @@ def run(ck):
     ck.cov["case_kinds"] = kinds
     ck.cov["exhaustive"] = False
     ck.cov["exhaustive_part"] = ("thorough tier: every multiset of <=4 hosts over the 12 host kinds x every specification kind for a 2-member shard; "
-                                 "quick tier: all of these for <=2 hosts, samples of the specifications for 3 and 4 hosts")
+                                 "quick tier: all of these for <=2 hosts, 10 (3 hosts) / 4 (4 hosts) sampled specifications per fleet")
     ck.sample({"case": go_line(cases[len(cases) // 3])[:400], "observed": json.dumps(res[len(cases) // 3])[:400]})
     ck.sample({"case": go_line(cases[-1])[:400], "observed": json.dumps(res[-1])[:400]})
     ck.sample({"case": go_line(cases[len(cases) // 2])[:400], "observed": json.dumps(res[len(cases) // 2])[:400]})
@@ -548,7 +548,7 @@ def run(ck):
         vf.items.append((coq_case(vf, c, ttl, o), ("launch", c, o)))
         for q in o["reqs"]:
             key = json.dumps(q, sort_keys=True)
-            if key not in seen_v and len(seen_v) < 4000:
+            if key not in seen_v and len(seen_v) < (4000 if ck.tier == "quick" else 40000):
                 seen_v.add(key)
                 vf.items.append((coq_vcase(vf, q), ("validate", q, None)))
     shards = [vf.items for vf in vfs]
